@@ -361,3 +361,7 @@ mod tests {
         ));
     }
 }
+
+#[cfg(all(test, pendulum_project_ntpd_rs_verif))]
+#[path = "/verif/harness/ntpd/probe_sock.rs"]
+pub(crate) mod verif_probe;
